@@ -23,6 +23,7 @@ type World struct {
 	// ---- statistics and trace
 	Faults   map[string]int // fault kind -> times it actually fired
 	Probes   map[string]int // reach probes
+	entries  int            // function entries seen outside the scheduler (see EntryBudget)
 	trace    []string
 	TraceCap int
 	seq      uint64
